@@ -545,7 +545,11 @@ func writeEvidence(run *checkRun, verif string, wall time.Duration, violations i
 			"explanation":              "every obligation generated from /repo's working tree for the functions listed under functions_under_contract was discharged; machine integers are modelled as mathematical integers with explicit wrap-around (the wrap is dropped only under a side condition discharged as an `exact` obligation)",
 			"notes":                    extra,
 		},
-		"assumptions": run.prop.Assumptions,
+		"assumptions": func() []string {
+			a := append([]string{}, run.prop.Assumptions...)
+			a = append(a, "every item of coverage.trusted_base (assumed contracts and postconditions, axioms, library models) is assumed, not checked", "termination is not proved; machine integers are modelled as mathematical integers with explicit wrap-around")
+			return a
+		}(),
 		"wall_s":      wall.Seconds(),
 		"violations":  violations,
 	}
